@@ -18,13 +18,13 @@ pub fn prop() -> Prop {
 fn spec() -> Spec {
     Spec {
         kinds: vec![Kind { name: "ik_sound", quick: 800_000, thorough: 20_000_000, serial: false }, Kind { name: "shared_history", quick: 40_000, thorough: 1_000_000, serial: false }],
-        rule: "each case = generated robot (all classes incl. degenerate, 64 sign patterns, offsets, dof 5/6) x pose (reachable / random SE(3) / reach boundary / wrist centre on axis 1 / wrist singular / hostile NaN-inf-nonunit) x previous (generating, shifted by turns, uniform, far outside, sentinel, non-finite) ; all four inverse entry points are called and EVERY returned vector is pushed through the reference chain; non-trivial = a call returned >= 1 vector; distinct = hash(robot, pose, previous, entry point) Workload additions (rounds 4-6 of seeded changes): solvers built through new or new_with_constraints with limits that exclude nothing; dof-5 robots with a blocked or an unblocked sixth sign; previous classes generating+1e-9..1e-4 noise and generating-with-exact-zeros; kind shared_history = 2-4 robots sharing link lengths (other signs / offsets / c4) asked bit-identical poses and previous vectors in interleaved order on one thread. Rounds 7-9: non-finite J6 handed to inverse_5dof; joints at micro-radian values; robots at x25..x100 / x0.01..x0.1 scale; previous = a posture with the same TCP and another orientation; a fifth of the cases additionally through Tool / Base / Frame stacks (incl. yaw-only and far-away bases).",
+        rule: "each case = generated robot (all classes incl. degenerate, 64 sign patterns, offsets, dof 5/6) x pose (reachable / random SE(3) / reach boundary / wrist centre on axis 1 / wrist singular / hostile NaN-inf-nonunit) x previous (generating, shifted by turns, uniform, far outside, sentinel, non-finite) ; all four inverse entry points are called and EVERY returned vector is pushed through the reference chain; non-trivial = a call returned >= 1 vector; distinct = hash(robot, pose, previous, entry point) Workload additions (rounds 4-6 of seeded changes): solvers built through new or new_with_constraints with limits that exclude nothing; dof-5 robots with a blocked or an unblocked sixth sign; previous classes generating+1e-9..1e-4 noise and generating-with-exact-zeros; kind shared_history = 2-4 robots sharing link lengths (other signs / offsets / c4) asked bit-identical poses and previous vectors in interleaved order on one thread. Rounds 7-9: non-finite J6 handed to inverse_5dof; joints at micro-radian values; robots at x25..x100 / x0.01..x0.1 scale; previous = a posture with the same TCP and another orientation; a fifth of the cases additionally through Tool / Base / Frame stacks (incl. yaw-only and far-away bases). Round 10: one solver in eight has real joint limits (unconstrained joints, windows around the generating value, wide ranges; any sorting weight); wrapper stacks may contain a Parallelogram coupling.",
         assumptions: vec![
             "stated accuracy 1e-6 m / 1e-6 rad plus slack 1e-9 + 1e-12*reach for the difference between the library FK and the reference chain",
             "for hostile poses (non-finite, non-unit quaternion) only no-panic and finiteness are required: there is no SE(3) element to reproduce",
             "5-DOF entry points and dof-5 robots: position and tool axis only",
         ],
-        minimums: vec![("oracle_evals", 5_000_000, 100_000_000), ("returned_vectors", 3_000_000, 60_000_000), ("hostile_calls_survived", 100_000, 2_000_000), ("history.steps", 300_000, 7_000_000)],
+        minimums: vec![("oracle_evals", 5_000_000, 100_000_000), ("returned_vectors", 3_000_000, 60_000_000), ("hostile_calls_survived", 100_000, 2_000_000), ("history.steps", 300_000, 7_000_000), ("solvers_with_real_limits", 60_000, 1_500_000)],
     }
 }
 
@@ -37,9 +37,33 @@ fn run_case(kind: &str, idx: u64, rng: &mut Rng, mon: &mut Mon, _tier: Tier) {
     }
     let robot = gen_robot(rng, idx, RobotMode::All, 0.2);
     let rp = robot.rp;
-    let kin = make_solver(rng, &rp);
     let pclass = rng.usize(6);
     let gp = gen_pose(rng, &rp, pclass);
+    // One solver in eight has REAL joint limits (whatever they exclude, what is returned must still land on the pose):
+    // per joint unconstrained (from == to), a window of 0.05 .. 1.5 rad around the generating value (the previous vector
+    // is then often outside it), or a wide random range; sorting weight 0 / 1 / random.
+    let kin = if rng.usize(8) == 0 {
+        let (mut lf, mut lt) = ([0.0; 6], [0.0; 6]);
+        for j in 0..6 {
+            let around = gp.q.map(|q| q[j]).unwrap_or(0.0);
+            match rng.usize(10) {
+                0..=3 => {}
+                4..=6 => {
+                    let w = rng.logu(0.05, 1.5);
+                    lf[j] = around - w * rng.range(0.2, 1.0);
+                    lt[j] = around + w * rng.range(0.2, 1.0);
+                }
+                _ => {
+                    lf[j] = rng.range(-3.1, 0.0);
+                    lt[j] = rng.range(0.0, 3.1);
+                }
+            }
+        }
+        mon.count("solvers_with_real_limits");
+        rs_opw_kinematics::kinematics_impl::OPWKinematics::new_with_constraints(to_params(&rp), rs_opw_kinematics::constraints::Constraints::new(lf, lt, weight(rng)))
+    } else {
+        make_solver(rng, &rp)
+    };
     let (prev, prev_class) = gen_prev(rng, gp.q.as_ref(), rng.clone().usize(8));
     let _ = rng.next_u64();
     // one case in twenty: the previous vector is a posture with the SAME tool centre point and another orientation
@@ -74,7 +98,7 @@ fn run_case(kind: &str, idx: u64, rng: &mut Rng, mon: &mut Mon, _tier: Tier) {
     // points of 6-DOF robots: every answer must land on the requested pose through the reference composition)
     if gp.proper && rp.dof == 6 && rng.bool(0.2) {
         use crate::props::stack::*;
-        let layers = gen_stack(rng, 1 + rng.clone().usize(2), false, &["Tool", "Base", "Frame"]);
+        let layers = gen_stack(rng, 1 + rng.clone().usize(2), false, &["Tool", "Base", "Frame", "Tool", "Base", "Frame", "Para"]);
         let _ = rng.next_u64();
         let stacked = build(std::sync::Arc::new(kin), &layers);
         // the request in stack coordinates: the same flange pose seen through the stack
